@@ -647,6 +647,34 @@ impl Prop for C06 {
                 }
             }
         }
+        // EXTREME scope: every value of EXT as the limit x seven prefetch factors x both limit types x all four
+        // modes on twelve size vectors that put products on both sides of 2^64 (12 096 cases, seed 11)
+        let m = usize::MAX;
+        let ext_sizes: Vec<Vec<usize>> = vec![
+            vec![],
+            vec![m],
+            vec![1 << 63, 1 << 63],
+            vec![1 << 63, 1, 1],
+            vec![1 << 62; 5],
+            vec![1, 2, 3],
+            vec![1 << 32; 3],
+            vec![(1 << 32) + 1, (1 << 32) - 1, 1 << 32],
+            vec![m, 0, m],
+            vec![0, 0, 0],
+            vec![(1 << 63) - 1, 1 << 63, (1 << 63) + 1],
+            vec![3, m / 3 + 1, 1, m / 3],
+        ];
+        for sizes in &ext_sizes {
+            for &limit in EXT {
+                for &prefetch in &[0usize, 1, 2, 3, 1 << 32, 1 << 63, m] {
+                    for ty in 0..2i64 {
+                        for mode in 0..4 {
+                            all.push(to_val(&Cfg { sort: mode & 1 == 1, shuffle: mode & 2 == 2, prefetch, limit, ty, seed: 11, sizes: sizes.clone() }));
+                        }
+                    }
+                }
+            }
+        }
         all
     }
 
